@@ -278,3 +278,134 @@ Theorem C15_flag_from_bits_value E raw m : 0 <= raw -> fbound E <> CONFORM ->
   flag_from_bits E raw = FMem m -> m = raw.
 Proof. exact (flag_from_bits_value E raw m). Qed.
 Print Assumptions C15_flag_from_bits_value.
+
+(* ================================================================ translated source (translator unit "data")
+   coq/Gen/DataGen.v is regenerated from the current text of /repo/amaranth/lib/data.py and lib/enum.py on every
+   run; each generated function equals the hand model used above (Proofs/GenEqData.v).  LS = layout_size is the
+   instance of `Shape.cast(_).width`; cv / cf / vf are the model's field_init / const_field / view_field. *)
+From V.Model Require Import Ast Denote.
+From V.Proofs Require Import GenEqData.
+From V.Gen Require DataGen.
+
+(* Field(shape, offset), .shape, .offset, .width *)
+Theorem C15_translated_Field W f off : G.Field_new f off = (off, f) /\ G.Field_shape (off, f) = f /\
+  G.Field_offset (off, f) = off /\ G.Field_width W (off, f) = W f.
+Proof. exact (conj (gen_Field_new_eq f off) (conj (gen_Field_shape_eq off f)
+                (conj (gen_Field_offset_eq off f) (gen_Field_width_eq W off f)))). Qed.
+Print Assumptions C15_translated_Field.
+
+(* StructLayout.__init__ (running offset), __iter__, __getitem__, size — all member lists, all keys *)
+Theorem C15_translated_StructLayout fs k :
+  G.StructLayout_new LS fs = struct_fields 0 fs /\
+  G.StructLayout_iter (G.StructLayout_new LS fs) = fields_of (Struct fs) /\
+  G.StructLayout_getitem (G.StructLayout_new LS fs) k = of_opt 1 (field_of (Struct fs) k) /\
+  G.StructLayout_size LS (G.StructLayout_new LS fs) = layout_size (Struct fs).
+Proof. exact (conj (gen_StructLayout_new_eq fs) (conj (gen_StructLayout_iter_eq fs)
+                (conj (gen_StructLayout_getitem_eq fs k) (gen_StructLayout_size_eq fs)))). Qed.
+Print Assumptions C15_translated_StructLayout.
+
+(* UnionLayout.__init__ (offset 0), __iter__, __getitem__, size (max) *)
+Theorem C15_translated_UnionLayout fs k :
+  G.UnionLayout_iter (G.UnionLayout_new fs) = fields_of (Union fs) /\
+  G.UnionLayout_getitem (G.UnionLayout_new fs) k = of_opt 1 (field_of (Union fs) k) /\
+  G.UnionLayout_size LS (G.UnionLayout_new fs) = layout_size (Union fs).
+Proof. exact (conj (gen_UnionLayout_iter_eq fs) (conj (gen_UnionLayout_getitem_eq fs k)
+                (gen_UnionLayout_size_eq fs))). Qed.
+Print Assumptions C15_translated_UnionLayout.
+
+(* ArrayLayout.__iter__ (generator), __getitem__ (negative index, bounds -> KeyError), size — all lengths, all keys *)
+Theorem C15_translated_ArrayLayout e n k :
+  G.ArrayLayout_iter LS (G.ArrayLayout_new e (Z.of_nat n)) = fields_of (Array e n) /\
+  G.ArrayLayout_getitem LS (G.ArrayLayout_new e (Z.of_nat n)) k = of_opt 1 (field_of (Array e n) k) /\
+  G.ArrayLayout_size LS (G.ArrayLayout_new e (Z.of_nat n)) = layout_size (Array e n).
+Proof. exact (conj (gen_ArrayLayout_iter_eq e n) (conj (gen_ArrayLayout_getitem_eq e n k)
+                (gen_ArrayLayout_size_eq e n))). Qed.
+Print Assumptions C15_translated_ArrayLayout.
+
+(* FlexibleLayout.__init__: accepts what wf_layout describes and stores (size, fields); a field past the end is refused *)
+Theorem C15_translated_FlexibleLayout_new sz fs : wf_layout (Flex sz fs) = true ->
+  G.FlexibleLayout_new LS sz fs = G.Ret (sz, fs).
+Proof. exact (gen_FlexibleLayout_new_eq sz fs). Qed.
+Print Assumptions C15_translated_FlexibleLayout_new.
+Theorem C15_translated_FlexibleLayout_new_rejects sz k o f r : sz < o + layout_size f ->
+  G.FlexibleLayout_new LS sz ((k, (o, f)) :: r) = G.Raise 3.
+Proof. exact (gen_FlexibleLayout_new_rejects sz k o f r). Qed.
+Print Assumptions C15_translated_FlexibleLayout_new_rejects.
+
+(* layout.__iter__ / layout[key] / layout.size through the class of the object — all layouts, all keys *)
+Theorem C15_translated_Layout_methods l k : is_layout l = true ->
+  G.Layout_iter LS l = fields_of l /\ G.Layout_getitem LS l k = of_opt 1 (field_of l k) /\
+  G.Layout_size LS l = layout_size l /\ G.Layout_as_shape LS l = Sh (layout_size l) false.
+Proof. exact (fun H => conj (gen_Layout_iter_eq l) (conj (gen_Layout_getitem_eq l k H)
+                (conj (gen_Layout_size_eq l H) (gen_Layout_as_shape_eq l H)))). Qed.
+Print Assumptions C15_translated_Layout_methods.
+
+(* layout_size solves the recursion Shape.cast(obj).width -> as_shape() -> size of the source, and nothing else does *)
+Theorem C15_translated_Shape_cast_width :
+  (forall l, G.Shape_cast_width LS l = layout_size l) /\
+  (forall W, (forall l, W l = G.Shape_cast_width W l) -> forall l, W l = layout_size l).
+Proof. exact (conj gen_Shape_cast_width_eq gen_width_unique). Qed.
+Print Assumptions C15_translated_Shape_cast_width.
+
+(* data.Const(layout, target) / Layout.from_bits / Const.as_bits — all layouts, all integers *)
+Theorem C15_translated_from_bits l raw : is_layout l = true ->
+  G.Const_new LS l raw = of_res (from_bits l raw) /\ G.Layout_from_bits LS l raw = of_res (from_bits l raw) /\
+  Okz (G.Const_as_bits (l, raw)) = as_bits (Ok l raw).
+Proof. exact (fun H => conj (gen_Const_new_eq l raw H) (conj (gen_Layout_from_bits_eq l raw H)
+                (gen_Const_as_bits_eq l raw))). Qed.
+Print Assumptions C15_translated_from_bits.
+
+(* Layout.const / UnionLayout.const: the packing loop — all well-formed layouts, all initialisers;
+   `rec` is any treatment of nested initialisers, in particular the model itself *)
+Theorem C15_translated_Layout_const l i : wf_layout l = true ->
+  (forall rec, bits_of (G.Layout_const_virtual LS (cv rec) l i) = layout_const_step rec l i) /\
+  bits_of (G.Layout_const_virtual LS (cv layout_const) l i) = layout_const l i.
+Proof. exact (fun H => conj (fun rec => gen_Layout_const_virtual_step rec l i H)
+                (gen_Layout_const_virtual_eq l i H)). Qed.
+Print Assumptions C15_translated_Layout_const.
+
+(* Const.__getitem__(int/str key) — everything, including non-layouts (TypeError) and missing keys *)
+Theorem C15_translated_Const_getitem l raw k :
+  G.Const_getitem LS cf (l, raw) k = of_res (const_getitem l raw k).
+Proof. exact (gen_Const_getitem_eq l raw k). Qed.
+Print Assumptions C15_translated_Const_getitem.
+
+(* View.__getitem__ with an int/str key and with a Value key (current value idx) *)
+Theorem C15_translated_View_getitem l tv k :
+  G.View_getitem LS vf (l, tv) k = of_res (view_getitem l tv k) /\
+  G.View_getitem_dyn LS vf (l, tv) k = of_res (view_getitem_dyn l tv k).
+Proof. exact (conj (gen_View_getitem_eq l tv k) (gen_View_getitem_dyn_eq l tv k)). Qed.
+Print Assumptions C15_translated_View_getitem.
+
+(* FlagView.__invert__: the expression built by the source has the enum's shape exactly when the model answers
+   Some, and then denotes the model's raw value; otherwise TypeError — all classes, all targets of the right shape *)
+Theorem C15_translated_FlagView_invert E t en : 0 <= fwidth E -> shape_of t = Sh (fwidth E) false ->
+  0 <= denote en t < 2 ^ fwidth E ->
+  match G.FlagView_invert (E, t), fv_not_raw E (denote en t) with
+  | G.Ret (E', e), Some v => E' = E /\ shape_of e = Sh (fwidth E) false /\ denote en e = v
+  | G.Raise c, None => c = 4
+  | _, _ => False
+  end.
+Proof. exact (gen_FlagView_invert_eq E t en). Qed.
+Print Assumptions C15_translated_FlagView_invert.
+Example C15_translated_FlagView_invert_example :
+  G.FlagView_invert (ex_flags, ESig 0 (Sh 4 false)) =
+    G.Ret (ex_flags, EOp2 OAnd (EOp1 ONot (ESig 0 (Sh 4 false))) (EConst 11 (Sh 4 false))) /\
+  fv_not_raw ex_flags 1 = Some 10.
+Proof. vm_compute. repeat split. Qed.
+
+(* FlagView.__and__ / __or__ / __xor__ (through __bitop) *)
+Theorem C15_translated_FlagView_bitop E a b o en : 0 <= fwidth E ->
+  shape_of a = Sh (fwidth E) false -> shape_of b = Sh (fwidth E) false ->
+  0 <= denote en a < 2 ^ fwidth E -> 0 <= denote en b < 2 ^ fwidth E ->
+  let o2 := match o with BAnd => OAnd | BOr => OOr | BXor => OXor end in
+  G.FlagView_bitop (E, a) (E, b) o2 = G.Ret (E, EOp2 o2 a b) /\
+  shape_of (EOp2 o2 a b) = Sh (fwidth E) false /\
+  denote en (EOp2 o2 a b) = fv_bop_raw E o (denote en a) (denote en b).
+Proof. exact (gen_FlagView_bitop_eq E a b o en). Qed.
+Print Assumptions C15_translated_FlagView_bitop.
+Theorem C15_translated_FlagView_ops s o :
+  G.FlagView_and s o = G.FlagView_bitop s o OAnd /\ G.FlagView_or s o = G.FlagView_bitop s o OOr /\
+  G.FlagView_xor s o = G.FlagView_bitop s o OXor.
+Proof. exact (conj (gen_FlagView_and_eq s o) (conj (gen_FlagView_or_eq s o) (gen_FlagView_xor_eq s o))). Qed.
+Print Assumptions C15_translated_FlagView_ops.
